@@ -1002,6 +1002,47 @@ def r22_filter_map(text):
     return []
 
 
+# ---------------------------------------------------------------- R23 reverse enumerate over copied elements
+def r23_rev_enumerate(text):
+    """`for (I, X) in E.iter().copied().enumerate().rev() { B }` ->
+    `let cr_N_ = &E; let mut cr_i_N_ = cr_N_.len(); while cr_i_N_ > 0 { cr_i_N_ -= 1; let I = cr_i_N_; let X = cr_N_[cr_i_N_]; B }`
+    (indices from the last down to 0, elements copied). B must not contain `continue`."""
+    m = mask(text)
+    n = 0
+    for mt in re.finditer(r"(?<![A-Za-z0-9_])for(?![A-Za-z0-9_])", m):
+        try:
+            bo = _cond_end(m, mt.end())
+        except Unsupported:
+            continue
+        inm = re.search(r"\sin\s", m[mt.end():bo])
+        if not inm:
+            continue
+        n += 1
+        expr = text[mt.end() + inm.end():bo].strip()
+        em = re.fullmatch(r"([A-Za-z_][A-Za-z0-9_\.]*)\s*\.\s*iter\s*\(\s*\)\s*\.\s*copied\s*\(\s*\)\s*\.\s*enumerate\s*\(\s*\)\s*\.\s*rev\s*\(\s*\)", expr)
+        if not em:
+            continue
+        pat = text[mt.end():mt.end() + inm.start()].strip()
+        pm = re.fullmatch(r"\(\s*([a-z_][A-Za-z0-9_]*)\s*,\s*([a-z_][A-Za-z0-9_]*)\s*\)", pat)
+        if not pm:
+            raise Unsupported("R23: pattern other than (i, x)")
+        bc = match_close(m, bo)
+        if re.search(r"(?<![A-Za-z0-9_])continue(?![A-Za-z0-9_])", m[bo:bc]):
+            raise Unsupported("R23: continue inside the loop body")
+        j = skip_ws_back(m, mt.start())
+        if j >= 0 and m[j] not in ";{}":
+            raise Unsupported("R23: `for` not at statement start")
+        cr, ci = "cr_%d_" % n, "cr_i_%d_" % n
+        ls = mt.start()
+        q = ls
+        while q > 0 and text[q - 1] in " \t":
+            q -= 1
+        indent = text[q:ls] if (q == 0 or text[q - 1] == "\n") else ""
+        return [Edit(ls, bo, "let %s = &%s;\n%slet mut %s = %s.len();\n%swhile %s > 0 " % (cr, em.group(1), indent, ci, cr, indent, ci), "R23"),
+                Edit(bo + 1, bo + 1, " %s -= 1; let %s = %s; let %s = %s[%s];" % (ci, pm.group(1), ci, pm.group(2), cr, ci), "R23")]
+    return []
+
+
 # ---------------------------------------------------------------- R14 const fn
 def r14_const_fn(text):
     m = mask(text)
@@ -1014,7 +1055,7 @@ def r14_const_fn(text):
 # ---------------------------------------------------------------- R15 matches! with binding-free patterns is fine; nothing to do
 
 
-ITERATED = {"R6", "R7", "R10", "R11", "R15", "R16", "R17", "R18", "R19", "R20", "R22"}
+ITERATED = {"R6", "R7", "R10", "R11", "R15", "R16", "R17", "R18", "R19", "R20", "R22", "R23"}
 
 TABLE = {
     "R1": r1_visibility,
@@ -1038,10 +1079,11 @@ TABLE = {
     "R19": r19_entry_or_insert,
     "R20": r20_rev_suffix,
     "R22": r22_filter_map,
+    "R23": r23_rev_enumerate,
 }
-ORDER = ["R2", "R1", "R1p", "R14", "R4", "R3", "R5", "R6", "R15", "R13", "R11", "R7", "R8", "R12", "R17", "R18", "R19", "R20", "R22", "R10", "R16"]
+ORDER = ["R2", "R1", "R1p", "R14", "R4", "R3", "R5", "R6", "R15", "R13", "R11", "R7", "R8", "R12", "R17", "R18", "R19", "R20", "R22", "R23", "R10", "R16"]
 
-EXEC_TOUCHING = {"R3", "R4", "R6", "R7", "R8", "R10", "R11", "R12", "R13", "R14", "R15", "R16", "R17", "R18", "R19", "R20", "R21", "R22"}
+EXEC_TOUCHING = {"R3", "R4", "R6", "R7", "R8", "R10", "R11", "R12", "R13", "R14", "R15", "R16", "R17", "R18", "R19", "R20", "R21", "R22", "R23"}
 
 
 def apply_rewrites(text, enabled, opts=None):
